@@ -15,11 +15,16 @@ package path
 //@ ghost checkFailures int
 
 //@ func FindPathFromModel(path, rwPaths, exact) (isExact, rwPath, err)
+//@   props C12, C13
+//@   safe
 //@   trusted
 //@   modifies checkFailures
 //@   ensures checkFailures == old(checkFailures) + ite(err == nil, 0, 1)
 //@   ensures err == nil ==> rwPath != nil
 //@ func CheckKeyValue(path, rwPath, val) (err)
+//@   props C12, C13
+//@   safe
+//@   requires rwPath != nil && val != nil
 //@   trusted
 //@   modifies checkFailures
 //@   ensures checkFailures == old(checkFailures) + ite(err == nil, 0, 1)
@@ -40,3 +45,28 @@ package path
 //@   props C03
 //@   modifies nothing
 //@   ensures {C03} descendant-at-element-boundary: r == ite(ancestor == "/", path != "/", under(path, ancestor))
+
+// No-panic sweep (C12) of the request-text parsing helpers: `safe` turns every nil dereference,
+// index/slice bound, nil-map write, unchecked type assertion and explicit panic into an obligation.
+//@ func CheckPathIndexIsValid(index) (err)
+//@   props C12
+//@   safe
+//@   modifies nothing
+//@ func IsPathValid(path) (err)
+//@   props C12
+//@   safe
+//@   modifies nothing
+//@ func ExtractIndexNames(path) (names, values)
+//@   props C12
+//@   safe
+//@   modifies nothing
+//@   ensures len(names) == len(values)
+//@   loop 1 invariant len(indexNames) == len(indexValues)
+//@ func RemovePathIndices(path) (r)
+//@   props C12
+//@   safe
+//@   modifies nothing
+//@ func AnonymizePathIndices(path) (r)
+//@   props C12
+//@   safe
+//@   modifies nothing
